@@ -539,6 +539,41 @@ func c03BitSweep(c *core.Ctx) {
 		}
 	}
 	c.Extra["single_bit_flips"] = flips
+	// SM.tla's move "outersw" stands for ANY other outer status: every first status octet (and several second ones)
+	// over a genuine protected response must be refused - Decode compares DO'99' with the outer status word.
+	sweeps := 0
+	for si, su := range sim.Suites {
+		for hi, sh := range shapes {
+			if !c.Thorough() && (hi+si)%2 == 1 {
+				continue
+			}
+			seed := c.Rand.Int63()
+			for sw1 := 0; sw1 < 256; sw1++ {
+				for _, sw2 := range []int{sh.sw & 0xFF, 0x10, 0x00, 0xFF}[:core.Pick(c, 2, 4)] {
+					osw := sw1<<8 | sw2
+					if osw == sh.sw {
+						continue
+					}
+					rp := newSmReplay(su, seed, nil)
+					rp.cur.data, rp.cur.sw = sh.data, sh.sw
+					rp.s.Link.Script = func(idx int, cmd []byte, l *link.Link) link.Action {
+						return link.Action{Name: "outersw", Respond: func(g []byte, l *link.Link) []byte {
+							g[len(g)-2], g[len(g)-1] = byte(osw>>8), byte(osw)
+							return g
+						}}
+					}
+					ra, err := rp.s.Nfc.DoAPDU(iso7816.NewCApdu(0, 0xB0, 0, 0, nil, 256), "x")
+					sweeps++
+					c.Case(fmt.Sprintf("outersw/%s/%d/%04X/%04X", su.Name, sh.data, sh.sw, osw), true)
+					if err == nil {
+						c.Violation("C03:accepts-outersw", fmt.Sprintf("a genuine response (%s, data id %d, protected status %04X) presented under the outer status %04X was delivered: data %x status %04X", su.Name, sh.data, sh.sw, osw, ra.Data, ra.Status),
+							map[string]any{"suite": su.Name, "outer_sw": osw, "data": sh.data, "sw": sh.sw, "seed": seed})
+					}
+				}
+			}
+		}
+	}
+	c.Extra["outer_status_sweep"] = sweeps
 }
 
 // smLongHistories is filled in by smtrace.go (recorded histories validated against Trace_SM).
